@@ -278,6 +278,7 @@ func run(c *enum.Ctx) {
 	enum.Parallel(16, func(sh int) {
 		nt := enum.NontrivialSet{}
 		for i := sh; i < len(cases); i += 16 {
+			c.Doing(sh, cases[i])
 			c.Eval()
 			check(c, cases[i])
 			if len(cases[i].Bed)+len(cases[i].Gff) > 0 {
